@@ -313,6 +313,12 @@ func c03Mutate(rng *core.Rng, s string) (string, string) {
 }
 
 var c03Ill = []string{
+	// cyclic values reaching a renderer (println, fmt, panic text, error text)
+	"m := map[string]any{}; m[\"self\"] = m; println(m)", "import \"fmt\"; m := map[int]any{}; m[1] = m; s := fmt.Sprint(m)", "m := map[string]any{}; m[\"a\"] = map[string]any{\"b\": m}; panic(m)",
+	"s := []any{nil}; s[0] = s; println(s)", "import \"fmt\"; s := []any{nil}; m := map[string]any{\"s\": s}; s[0] = m; fmt.Println(m, s)", "import \"fmt\"; type N struct { Next *N; Kids []any; M map[string]any }; n := &N{}; n.Next = n; n.Kids = []any{n}; n.M = map[string]any{\"n\": n}; fmt.Println(n); println(n.Kids, n.M)",
+	"import \"fmt\"; m := map[string]any{}; m[\"self\"] = m; x := fmt.Sprintf(\"%v %d %s\", m, m, m)", "import (\"fmt\"; \"errors\"); m := map[float64]any{}; m[0.5] = m; var e error = errors.New(fmt.Sprint(m)); panic(e)", "a := map[string]any{}; b := map[string]any{\"a\": a}; a[\"b\"] = b; a", "s := []any{nil}; s[0] = s; s",
+	"import (x \"\\400\")", "import x \"\\400\"", "import \"\\400\"", "import (\"fmt\"; y \"\\xZZ\")", "import . \"\\u12\"", "import _ \"\\777/x\"", "import (a \"a\\\nb\")", "import m \"ma\\th\"; m.Sqrt(2)",
+	"import \"fmt\"; fmt.Println(\"\\400\")", "x := \"\\400\"", "x := '\\400'", "const c = \"\\xZ\"", "type T struct { A int \"\\400\" }",
 	"func f() int { }; f()", "func f() (int, int) { return 1 }; a, b := f()", "func f(a int) { }; f()", "func f(a int) { }; f(1, 2)",
 	"x := undefinedName + 1", "undefinedFunc()", "type T struct { N *T }; var t *T; t.N.N = nil", "type T struct { }; t := &T{Nope: 1}",
 	"var x int = \"s\"", "x := 1; x.y = 2", "x := []int{}; x[0] = 1", "m := map[string]int{}; m[1] = 2", "var m map[string]int; m[\"a\"] = 1",
@@ -407,6 +413,9 @@ func c03MakeInput(seed int64, corpus *c03Corpus, idx int, exhaustivePrefixes []s
 	if idx < len(exhaustivePrefixes) {
 		return c03Input{Kind: "eval", Src: exhaustivePrefixes[idx], Mutator: "every-prefix", Opts: idx % 4}
 	}
+	if rng.Chance(1, 400) {
+		return c03ScaleInput(rng)
+	}
 	switch k := rng.Intn(20); {
 	case k < 11:
 		i := rng.Intn(len(corpus.seeds))
@@ -435,6 +444,48 @@ func c03MakeInput(seed int64, corpus *c03Corpus, idx int, exhaustivePrefixes []s
 			XRets: rng.Intn(5), NArgs: rng.Intn(5)}
 		return in
 	}
+}
+
+// c03ScaleInput: sources whose line count, line length or number of declared
+// names crosses 2^16 (the width of the fields of a packed source position),
+// followed by something that fails at run time, at compile time or not at all.
+func c03ScaleInput(rng *core.Rng) c03Input {
+	n := core.Pick(rng, []int{65533, 65534, 65535, 65536, 65537, 70000, 131071, 131073, 200000})
+	tail := core.Pick(rng, []string{
+		"func f() int { z := 0; return 1 / z }\nf()\n",
+		"func f(s []int) int { return s[5] }\nfunc g() int { return f([]int{1}) }\ng()\n",
+		"type T struct { N int }\nfunc (t *T) M() int { var p *T; return p.N }\nx := &T{}\nx.M()\n",
+		"x := undefinedName + 1\n",
+		"panic(\"late\")\n",
+		"x := 1\nx\n",
+		"func f() int {\n",
+	})
+	var sb strings.Builder
+	what := ""
+	switch rng.Intn(5) {
+	case 0, 1:
+		what = "lines"
+		sb.WriteString(strings.Repeat("\n", n))
+		sb.WriteString(tail)
+	case 2:
+		what = "columns"
+		// the failing code sits beyond column n of one line
+		sb.WriteString("a := 1;" + strings.Repeat(" ", n) + strings.ReplaceAll(strings.TrimSuffix(tail, "\n"), "\n", "; ") + "\n")
+	case 3:
+		what = "comment-lines"
+		sb.WriteString("/*" + strings.Repeat("\n", n) + "*/ ")
+		sb.WriteString(tail)
+	default:
+		what = "names"
+		for i := 0; i < n; i++ {
+			fmt.Fprintf(&sb, "var g%d = %d\n", i, i&7)
+			if i > 70000 {
+				break
+			}
+		}
+		sb.WriteString(tail)
+	}
+	return c03Input{Kind: "eval", Src: sb.String(), Mutator: fmt.Sprintf("scale-%s-%d", what, n), Opts: rng.Intn(2) * 4}
 }
 
 // ---------------------------------------------------------------------------
